@@ -645,7 +645,42 @@ func registrations(p *Program) []registration {
 		}
 		return nil
 	}
-	for _, fn := range parserFns(p) {
+	// the method a table entry stands for: a bound method value, or a method
+	// expression (whose wrapper calls the method)
+	entryMethod := func(v ssa.Value) *ssa.Function {
+		if m := boundMethod(v); m != nil {
+			return m
+		}
+		for {
+			if ct, ok := v.(*ssa.ChangeType); ok {
+				v = ct.X
+				continue
+			}
+			break
+		}
+		f, ok := v.(*ssa.Function)
+		if !ok {
+			return nil
+		}
+		if fnPkg(f) == nil && f.Synthetic != "" {
+			for _, fb := range f.Blocks {
+				for _, fi := range fb.Instrs {
+					if c2 := callOf(fi); c2 != nil && c2.StaticCallee() != nil {
+						f = c2.StaticCallee()
+					}
+				}
+			}
+		}
+		if recvNamed(f, "parser", "Parser") {
+			return f
+		}
+		return nil
+	}
+	scan := append([]*ssa.Function{}, parserFns(p)...)
+	if sp := p.SSAPkg[Mod+"/parser"]; sp != nil && sp.Func("init") != nil {
+		scan = append(scan, sp.Func("init"))
+	}
+	for _, fn := range scan {
 		for _, b := range fn.Blocks {
 			for _, ins := range b.Instrs {
 				// a table written as a map literal: one insertion per entry
@@ -658,9 +693,45 @@ func registrations(p *Program) []registration {
 					if !ok {
 						continue
 					}
+					val := mu.Value
 					sig, isSig := nt.Underlying().(*types.Signature)
 					if !isSig {
-						continue
+						// a rule per token: a struct with the parse function in it
+						stt, isSt := nt.Underlying().(*types.Struct)
+						if !isSt {
+							continue
+						}
+						ld, isLd := val.(*ssa.UnOp)
+						if !isLd {
+							continue
+						}
+						al, isAl := ld.X.(*ssa.Alloc)
+						if !isAl {
+							continue
+						}
+						found := false
+						for _, ref := range *al.Referrers() {
+							fa, ok := ref.(*ssa.FieldAddr)
+							if !ok {
+								continue
+							}
+							fnt, ok := types.Unalias(stt.Field(fa.Field).Type()).(*types.Named)
+							if !ok {
+								continue
+							}
+							fsig, ok := fnt.Underlying().(*types.Signature)
+							if !ok {
+								continue
+							}
+							for _, r2 := range *fa.Referrers() {
+								if st, ok := r2.(*ssa.Store); ok && st.Addr == ssa.Value(fa) {
+									val, nt, sig, found = st.Val, fnt, fsig, true
+								}
+							}
+						}
+						if !found {
+							continue
+						}
 					}
 					rg := registration{fnType: nt.Obj().Name(), pos: mu.Pos()}
 					k, isConst := mu.Key.(*ssa.Const)
@@ -668,8 +739,14 @@ func registrations(p *Program) []registration {
 						continue // the registering helper itself: table[parameter] = function
 					}
 					rg.tok = constant.StringVal(k.Value)
-					rg.method = boundMethod(mu.Value)
-					if sig.Params().Len() == 1 {
+					rg.method = entryMethod(val)
+					// (a function type that names the parser as its first
+					// parameter — a method expression — has one more)
+					np := sig.Params().Len()
+					if np > 0 && isNamed(deref(sig.Params().At(0).Type()), "parser", "Parser") {
+						np--
+					}
+					if np == 1 {
 						rg.table = "registerInfix"
 					} else {
 						rg.table = "nullary:" + nt.Obj().Name()
@@ -925,6 +1002,78 @@ func expectSuccessDominates(e *ssa.Call, at ssa.Instruction) bool {
 // precedenceTable reads the map[token.Type]int literal of package parser.
 func precedenceTable(p *Program) (map[string]int64, token.Pos, bool) {
 	pk := p.ByPath[Mod+"/parser"]
+	// a table of rules (binding power and parse function per token), as a
+	// package-level literal or assigned while the package is initialised
+	var lits []*ast.CompositeLit
+	for _, f := range pk.Syntax {
+		ast.Inspect(f, func(n ast.Node) bool {
+			if cl, ok := n.(*ast.CompositeLit); ok {
+				if tv, ok := pk.TypesInfo.Types[cl]; ok {
+					if mt, ok := tv.Type.Underlying().(*types.Map); ok && isNamed(mt.Key(), "token", "Type") {
+						if st, ok := mt.Elem().Underlying().(*types.Struct); ok {
+							hasInt, hasFn := false, false
+							for i := 0; i < st.NumFields(); i++ {
+								if isInt(st.Field(i).Type()) {
+									hasInt = true
+								}
+								if _, isFn := st.Field(i).Type().Underlying().(*types.Signature); isFn {
+									hasFn = true
+								}
+							}
+							if hasInt && hasFn {
+								lits = append(lits, cl)
+							}
+						}
+					}
+				}
+			}
+			return true
+		})
+	}
+	if len(lits) == 1 {
+		cl := lits[0]
+		st := pk.TypesInfo.Types[cl].Type.Underlying().(*types.Map).Elem().Underlying().(*types.Struct)
+		intField := -1
+		for i := 0; i < st.NumFields(); i++ {
+			if isInt(st.Field(i).Type()) && intField < 0 {
+				intField = i
+			}
+		}
+		out := map[string]int64{}
+		good := true
+		for _, el := range cl.Elts {
+			kv, ok := el.(*ast.KeyValueExpr)
+			if !ok {
+				good = false
+				break
+			}
+			k := pk.TypesInfo.Types[kv.Key].Value
+			inner, ok := kv.Value.(*ast.CompositeLit)
+			if k == nil || !ok {
+				good = false
+				break
+			}
+			var ve ast.Expr
+			for i, e := range inner.Elts {
+				if ikv, ok := e.(*ast.KeyValueExpr); ok {
+					if id, ok := ikv.Key.(*ast.Ident); ok && id.Name == st.Field(intField).Name() {
+						ve = ikv.Value
+					}
+				} else if i == intField {
+					ve = e
+				}
+			}
+			if ve == nil || pk.TypesInfo.Types[ve].Value == nil {
+				good = false
+				break
+			}
+			iv, _ := constant.Int64Val(pk.TypesInfo.Types[ve].Value)
+			out[constant.StringVal(k)] = iv
+		}
+		if good && len(out) > 0 {
+			return out, cl.Pos(), true
+		}
+	}
 	for _, f := range pk.Syntax {
 		for _, d := range f.Decls {
 			gd, ok := d.(*ast.GenDecl)
